@@ -159,6 +159,11 @@ def queries(tier):
         for n in lens(3 if th else 2, 1):
             addp('Purl', ['pkg:%s/' % ty, ('hole', 'h', n)])
             addp('Purl', ['pkg:%s/ns/' % ty, ('hole', 'h', n)])
+    for ty in ('nuget', 'pypi'):
+        for n in ((3, 4, 5) if th else (3, 4)):
+            addp('Purl', ['pkg:%s/' % ty, ('hole', 'h', n)])
+    for n in ((4, 5) if th else (4,)):
+        addp('String', ['pkg:t/n?checksum=', ('hole', 'h', n), ':'])
     # typed checksum value
     seqs = [[], ['insert_raw'], ['insert'], ['remove'], ['get'], ['get_raw'], ['insert_raw', 'insert_raw'], ['insert', 'remove'],
             ['insert_raw', 'get'], ['insert', 'get'], ['insert_raw', 'get_raw'], ['insert_raw', 'insert']]
@@ -169,6 +174,9 @@ def queries(tier):
             qs.append(Query('checksum default %s alg=⟦%d⟧' % ('+'.join(ops) or 'nothing', al), h_checksum,
                             {'start': None, 'ops': ops, 'alen': al, 'vlen': 2 if th else 1},
                             bound='Checksum::default() then %s with algorithm names of %d free bytes' % (ops, al)))
+    for al in ((3, 4, 5) if th else (3, 4)):
+        qs.append(Query('checksum default insert_raw alg=⟦%d⟧' % al, h_checksum, {'start': None, 'ops': ['insert_raw'], 'alen': al, 'vlen': 0},
+                        bound='Checksum::default().insert_raw(algorithm of %d free bytes, "")' % al))
     for n in lens(5 if th else 4):
         qs.append(Query('checksum from ⟦%d⟧' % n, h_checksum, {'start': n, 'ops': ['insert_raw', 'get'], 'alen': 1, 'vlen': 1},
                         bound='Checksum::try_from(text of %d free bytes) then insert_raw + get' % n))
